@@ -325,7 +325,8 @@ def refine_cases(draw):
         'shape': [ny, nx], 'groups': groups,
         'noise_sigma': draw(st.sampled_from([0.0, 0.2, 0.5])),
         'noise_seed': draw(st.integers(0, 2**31 - 1)),
-        'pedestal': draw(st.sampled_from([0.0, 0.0, -50.0, 3.0])),
+        # (3e6: structure that single precision cannot resolve)
+        'pedestal': draw(st.sampled_from([0.0, 0.0, -50.0, 3.0, 3.0e6])),
         'thr': draw(st.floats(0.8, 4.0)),
         'det_npixels': draw(st.integers(3, 8)),
         'conn': draw(st.sampled_from([8, 8, 4])),
